@@ -182,7 +182,7 @@ Proof.
   all: try solve [specialize (O2 _ eq_refl); rewrite (C3 eq_refl) in Hc; cbn [cur_ok] in Hc;
                   destruct after; cbn [after_pc] in O2; try contradiction;
                   try (match goal with |- context [cur_ok _ (PRecv ?b)] => destruct b end; try contradiction);
-                  split; [reflexivity|exact Hc]].
+                  (split; [reflexivity|exact Hc])].
 Qed.
 
 Lemma scan_hs_gen es : forall pre s0 s x,
@@ -218,3 +218,89 @@ Proof.
   apply (in_aget _ _ _ W3) in Hin. apply Hle in Hin. lia.
 Qed.
 
+
+(* ---- scan_ack: the scanner's expectation is determined by the processor's control point *)
+
+Definition yrel (y : yexp) (p : ppc) : Prop :=
+  match y, p with
+  | YInit, (PNone | PRecv true) => True
+  | YInit, _ => False
+  | YNone, (PNone | PRecv true | PPubAck _ | PPubSave _ | PPubRec _ | PRelLookup _ | PRelCb _ _ _
+           | PRelComp _ _ | PRelDel _) => False
+  | YNone, PPubCb (Publish _ m _) => m_qos m = 0
+  | YNone, PPubCb _ => False
+  | YNone, _ => True
+  | YPub q, _ =>
+    (exists d m id, q = Publish d m id /\ m_qos m <> 0) /\
+    (p = PPubCb q \/
+     match after_cb_exp q with
+     | YAck id => p = PPubAck id
+     | YSave q' => p = PPubSave q'
+     | _ => False
+     end)
+  | YAck id, PPubAck id' => id = id'
+  | YSave q, PPubSave q' => q = q'
+  | YRec id, PPubRec id' => id = id'
+  | YRel id, PRelLookup id' => id = id'
+  | YRelCb m pid id, PRelCb m' pid' id' => m = m' /\ pid = pid' /\ id = id'
+  | YRelCb m pid id, PRelComp pid' id' => pid = pid' /\ id = id'
+  | YComp pid id, PRelComp pid' id' => pid = pid' /\ id = id'
+  | YDel id, PRelDel id' => id = id'
+  | _, _ => False
+  end.
+
+Lemma message_eqb_refl m : message_eqb m m = true.
+Proof.
+  pose proof (packet_eqb_refl (Publish false m 0)) as H. cbn [packet_eqb] in H.
+  apply andb_true_iff in H as [H _]. apply andb_true_iff in H as [_ H]. exact H.
+Qed.
+
+Lemma ack_sim s e s' y : InvCtl s -> InvOwed s -> yrel y (k_ppc (k s)) -> step s e = Some s' ->
+  exists y', ack_step y e = Some y' /\ yrel y' (k_ppc (k s')).
+Proof.
+  intros (_ & _ & C3 & _) (_ & O2) HR H.
+  destruct e.
+  all: step_leaves H.
+  all: simp_proj; clean_eqs.
+  all: repeat match goal with
+       | E : (?a =? ?b) = true |- _ => apply N.eqb_eq in E; subst
+       | E : packet_eqb _ _ = true |- _ => apply packet_eqb_eq in E; subst
+       | E : message_eqb _ _ = true |- _ => apply message_eqb_eq in E; subst
+       | E : opt_packet_eqb _ _ = true |- _ => apply opt_packet_eqb_eq in E
+       | E : negb ?a = false |- _ => destruct a; [clear E|discriminate E]
+       end.
+  (* events of other threads: nothing is expected of them, the control point stays *)
+  all: try solve [eexists; split; [reflexivity|first [exact HR | exact I]]].
+  all: try (rewrite (C3 eq_refl) in HR).
+  all: destruct y; cbn [yrel] in HR; try contradiction.
+  all: try solve [eexists; split; [reflexivity|first [exact HR | exact I]]].
+  (* y = YPub q: make q and the disjunction explicit *)
+  all: try (match type of HR with (exists _, _) /\ _ =>
+         let d0 := fresh "d" in let m0 := fresh "m" in let i0 := fresh "i" in let Hq := fresh "Hq" in
+         destruct HR as [(d0 & m0 & i0 & -> & Hq) HR]; cbn [after_cb_exp] in HR;
+         destruct (m_qos m0 =? 1) eqn:?; [|destruct (m_qos m0 =? 2) eqn:?];
+         destruct HR as [HR|HR]; try discriminate HR; try contradiction end).
+  all: repeat match goal with
+       | X : _ /\ _ |- _ => destruct X
+       | X : PPubCb _ = PPubCb _ |- _ => injection X as ?; subst
+       | X : PPubAck _ = PPubAck _ |- _ => injection X as ?; subst
+       | X : PPubSave _ = PPubSave _ |- _ => injection X as ?; subst
+       | X : Publish _ _ _ = Publish _ _ _ |- _ => injection X as ? ? ?; subst
+       end; subst.
+  all: try solve [exfalso; congruence].
+  all: repeat match goal with E : m_qos ?m = _ |- _ => rewrite E in * end.
+  all: try solve [specialize (O2 _ eq_refl); destruct after; cbn [after_pc] in O2; try contradiction;
+                  try (match goal with |- context [yrel _ (PRecv ?b)] => destruct b end; try contradiction);
+                  (eexists; split; [reflexivity|exact I])].
+  all: try solve [eexists; split;
+         [ cbn [ack_step proc_obs after_cb_exp get_id];
+           repeat match goal with E : (_ =? _) = _ |- _ => rewrite E end;
+           rewrite ?N.eqb_refl, ?message_eqb_refl, ?packet_eqb_refl;
+           repeat match goal with E : (_ =? _) = _ |- _ => rewrite E end; reflexivity
+         | cbn [yrel after_cb_exp];
+           repeat match goal with E : (_ =? _) = _ |- _ => rewrite E end;
+           first [ exact I | reflexivity | assumption | (split; [reflexivity|split; reflexivity]) | (split; reflexivity)
+                 | (apply N.eqb_eq; assumption)
+                 | (split; [do 3 eexists; split; [reflexivity|assumption] | first [left; reflexivity | right; reflexivity]]) ] ]].
+  Show.
+Admitted.
